@@ -131,6 +131,12 @@ def check(case):  # noqa: PLR0915
     d = norm.diff(doc(hs), doc(rs), norm.BITEXACT)
     require(not d, "rmul-differs", lambda: f"f*h vs h*f: {norm.fmt(d)}")
 
+    # whatever factor was drawn: every factor that is not positive empties this very state, from either side
+    dz = doc(h.zero())
+    for z in (0.0, 0, -0.0, -1.0, float("nan"), float("-inf")):
+        for side, e in (("h*f", h * z), ("f*h", z * h)):
+            d = norm.diff(dz, doc(e), norm.BITEXACT)
+            require(not d, "nonpositive-factor-not-zero", lambda: f"{side} with f = {z!r} is not the empty aggregator: {norm.fmt(d)}")  # noqa: B023
     if not positive:
         d = norm.diff(doc(h.zero()), doc(hs), norm.BITEXACT)
         require(not d, "nonpositive-factor-not-zero", lambda: f"h*{f!r} is not the empty aggregator: {norm.fmt(d)}")
